@@ -535,6 +535,12 @@ def mon_c11(tr):
             if rp["result"] == 0 and kind == "req" and rp["lrcount"] > 1 and g["expried"] > 0:
                 out.append(("ack:reentrant-relock-answered-before-acknowledgement", "re-entrant re-lock %d carrying require-ack answered SUCCED at once (its record is acknowledged later)" % rp["req"], i))
                 continue
+            if rp["result"] == 0 and kind == "req" and g["expried"] > 0 and rp["lrcount"] == 1:
+                ka = st["after"]["keys"].get(g["key"])
+                h = [h for h in (live_holders(ka) if ka else []) if h["req"] == rp["req"]]
+                if h and h[0]["ack"] != 255:
+                    out.append(("ack:answered-succed-but-left-ack-pending", "ack-lock %d was answered SUCCED at once (never-persist mode, own flag or inherited from the oldest holder) but its hold stays in the acknowledgement-pending state: it can never be unlocked" % rp["req"], i))
+                    continue
             if g["eflag"] & 0x200 or g["expried"] == 0:
                 continue        # never-persisted holds / value probes cannot be acknowledged: answered at once by design
             if rp["result"] == 0 and kind == "req":
